@@ -11,6 +11,7 @@ import (
 
 	"verifharness/fw"
 	"verifharness/ref"
+	"verifharness/reg"
 )
 
 type task struct {
@@ -478,7 +479,7 @@ func init() {
 		Level: "exploration",
 		Rule: func(tier string) string {
 			if tier == "thorough" {
-				return "exhaustive enumeration: every int16, every int32 (2^32), int64 2^k±65536 for every k, every float32 bit pattern through FloatCodec and Float32DoubleCodec, float64 sign×exponent×66 mantissas, every byte string of length<=3 and length 4..11 over {00,01,7f,80,ff} as varint input to Int16/Int32/Int64 Read and Skip; plus codec SELECTION through Schema.Codec: every primitive Go type, plain and as a defined type, under every schema primitive that may carry it, inside struct{F T; G T} and as array items in struct{F []T; G T}, bytes and decoded values compared bit-exactly; each value is a distinct case; non-trivial = reached the byte-for-byte / value comparison against the reference zig-zag codec"
+				return "exhaustive enumeration: every int16, every int32 (2^32), int64 2^k±65536 for every k, every float32 bit pattern through FloatCodec and Float32DoubleCodec, float64 sign×exponent×66 mantissas, every byte string of length<=3 and length 4..11 over {00,01,7f,80,ff} as varint input to Int16/Int32/Int64 Read and Skip; plus codec SELECTION through Schema.Codec: every primitive Go type, plain and as a defined type (as a field, as an array item, as three pointer fields of one record under [null,X], and inside the library's null.Int/Float/Bool/String wrappers), under every schema primitive that may carry it, inside struct{F T; G T} and as array items in struct{F []T; G T}, bytes and decoded values compared bit-exactly; each value is a distinct case; non-trivial = reached the byte-for-byte / value comparison against the reference zig-zag codec"
 			}
 			return "exhaustive enumeration: every int16, every int32 with |v|<2^21 plus ±1024 around every power of two, int64 2^k±1024 for every k, float32 sign×exponent×64 mantissas through FloatCodec and Float32DoubleCodec, float64 sign×exponent×66 mantissas, every byte string of length<=2 and structured strings of length 4..11 over {00,01,7f,80,ff} as varint input to Int16/Int32/Int64 Read and Skip; plus codec SELECTION through Schema.Codec: every primitive Go type, plain and as a defined type, under every schema primitive that may carry it, inside struct{F T; G T} and as array items in struct{F []T; G T}, bytes and decoded values compared bit-exactly; each value is a distinct case; non-trivial = reached the comparison against the reference zig-zag codec"
 		},
@@ -487,6 +488,7 @@ func init() {
 			"float32 carried as double: NaN maps to NaN (payload/quiet bit not compared; recorded interpretation), every non-NaN pattern bit-exact",
 			"int64 and float64 domains are covered on structured boundary sets, not completely",
 		},
+		Init:     func(c *fw.Ctx) { reg.Init() },
 		NumCases: func(tier string) int { return len(tasks(tier)) },
 		RunCase: func(c *fw.Ctx, idx int) {
 			t := tasks(c.Tier)[idx]
